@@ -206,3 +206,32 @@ CHECKS['C12'] = dict(
                 counters=['conditions_checked', 'skipped_not_uniquely_solvable']),
     assumptions=[A_SHAPE, 'the solution is linear in ordinates and boundary values, so unit right-hand sides decide all values (exact half)'],
 )
+
+
+def c05_units(tier):
+    import subprocess, os
+    from driver import VERIF, BUILD
+    gdir = os.path.join(BUILD, 'C05', 'gen')
+    plan = [('k1', 12), ('fixed', 2)] if tier == 'quick' else [('k1', 12), ('fixed', 2), ('k2', 160), ('red3', 320)]
+    us = []
+    for mode, ntus in plan:
+        subprocess.run(['python3', os.path.join(VERIF, 'gen', 'gen_exprs.py'), gdir, mode, str(ntus)], check=True, stdout=subprocess.DEVNULL)
+        for i in range(ntus):
+            us.append(unit('%s-%03d' % (mode, i), os.path.join(gdir, '%s_%03d.cpp' % (mode, i)), 'exact', shards=1))
+    return us
+
+
+CHECKS['C05'] = dict(
+    title='Operator expressions act as the differential expression they spell',
+    level='exploration',
+    engine='E2 program enumerator x E1 input enumerator',
+    technique='exhaustive enumeration of programs: every operator-expression tree up to a node bound over a fixed grammar is generated as C++ (a distinct template instantiation each) together with its reference AST, applied by the real library to every operand/factor placement and compared exactly with a reference interpreter of the AST',
+    level_text='All 204 expression trees with at most one operator node over {I, X<1>, X<2>, Dx<1>, Dx<2>, spline factor} x {unary minus, c*A, A*c, A/c, A+c, c+A, A-c, c-A with c of the scalar type and of type int} x {A*B, A+B, A-B} (thorough: all 10302 trees with at most two nodes and all 31995 three-node trees of a reduced grammar), plus the commutator, the four example Hamiltonians and deeper nests; each applied to splines of order 0..2 on every window of a 5-point grid with unit/zero/generic coefficients and, for trees with a spline factor, 7 factor placements (ending inside, starting inside, point-like, empty, ...) x 2 factor values. The result must denote exactly ref_apply(AST, operand).',
+    level_note='Trusted: GMP, the recursive interpreter ref_apply in engine/refpp.h, gen/gen_exprs.py emitting C++ and AST from one object. Trees larger than the bound are not instantiated; operator classes are compositional (a node sees only its children\'s output arrays), so two-node nesting exercises every parent/child pair of node kinds. Expressions are built from temporaries (named lvalue operators do not compile in compound expressions).',
+    units=c05_units,
+    rule='cases = (expression tree, factor window and value, operand order, operand window, coefficient pattern). Non-trivial = the reference result is a non-zero function. counters.trees = number of distinct expression trees compiled and run.',
+    bounds=dict(quick='204 trees (<= 1 operator node) + 10 fixed deeper trees', thorough='10302 trees (<= 2 nodes) + 31995 trees (3 nodes, reduced grammar {X1,Dx1,V; -A, i*A, A/i, A/c, A-c, i-A; * + -}) + fixed list'),
+    guards=dict(classes=['tree:with-factor', 'tree:no-factor', 'factor:interval:ends-inside:starts-inside', 'factor:interval:ends-inside', 'factor:interval:starts-inside', 'factor:point:ends-inside:starts-inside', 'factor:empty:ends-inside', 'factor:interval'],
+                counters=['trees']),
+    assumptions=[A_SHAPE, A_POLY],
+)
